@@ -101,10 +101,15 @@ def run(ctx):
         d = share_definition(ctx.rng, transcend=(i % 5 == 4))
         if i == 1:
             d = gen.paired_powers_definition(ctx.rng)
+        if i % 5 == 4:
+            gen.force_inverse_composition(ctx.rng, d)      # asin(sin u) etc.: cancelling it is only right on the principal branch
         d._kind = "ekf"
         rational = eh.is_rational(d)
         process, sensor = eh.make_noises(ctx.rng, d)
         pts = [gen.gen_point(ctx.rng, d) for _ in range(3)]
+        if i % 5 == 4:
+            # a point well outside (-pi/2, pi/2) in every state
+            pts[-1] = {"dt": pts[0]["dt"], "cal": pts[0]["cal"], "control": dict(pts[0]["control"]), "state": {n_: F(5, 2) for n_ in pts[0]["state"]}}
         cal = pts[0]["cal"]
         pts = [dict(p, cal=cal) for p in pts]
         # every point is followed by a NEARBY one (all inputs moved by 2^-22 relative): consecutive evaluations of one block on
